@@ -121,7 +121,7 @@ func vfBuildGguf(c vfDecodeCase, total int) ([]byte, map[string]int) {
 	binary.Write(&w.buf, w.bo, uint32(c.Ver))
 	mark("hdr")
 	w.count("hdr_ntensors", 2)
-	w.count("hdr_nkv", 3)
+	w.count("hdr_nkv", 4)
 	// kv0: general.architecture = "llama"
 	mark("kv0.key")
 	w.str("kv0_keylen", "general.architecture")
@@ -156,6 +156,22 @@ func vfBuildGguf(c vfDecodeCase, total int) ([]byte, map[string]int) {
 		w.str("", "32")
 	} else {
 		w.u32("kv2_value", 32)
+	}
+	// kv3: general.parameter_count = uint64(7); when its type is mutated the value is written in that type,
+	// so the file stays well formed and declares the count as uint32 / string / int64 / float64
+	w.str("", "general.parameter_count")
+	w.u32("kv3_type", 10)
+	switch w.muts["kv3_type"] {
+	case "4":
+		binary.Write(&w.buf, w.bo, uint32(7))
+	case "8":
+		w.str("", "7")
+	case "11":
+		binary.Write(&w.buf, w.bo, int64(7))
+	case "12":
+		binary.Write(&w.buf, w.bo, float64(7))
+	default:
+		binary.Write(&w.buf, w.bo, uint64(7))
 	}
 	// tensor infos
 	mark("t0.name")
